@@ -50,6 +50,9 @@ func CheckC14(c C14Case, rec *Rec) error {
 	if c.Net.Renamed {
 		rec.Class("node list does not start with the sensors")
 	}
+	if c.Net.Dormant && c.Net.ViaGenome {
+		rec.Class("expressed from a genome that also carries a disabled module")
+	}
 	if len(c.Net.Nodes) > 32 {
 		rec.Class("more than 32 nodes")
 	}
